@@ -2,6 +2,7 @@ import Rare.Proofs.C18Cal
 import Rare.Proofs.C18Layout
 import Rare.Proofs.C18Dur
 import Rare.Proofs.C18RT
+import Rare.Proofs.C18Abbr
 import Rare.Gen.C18
 /-!
 # C18 – Time helpers agree with the calendar and round-trip
@@ -212,7 +213,9 @@ theorem isoweek_dec28 (d y : Int) (h : civilFromDays d = ⟨y, 12, 28⟩) :
 minute and a numeric zone, every valid civil date-time with whole seconds, every weekday label and
 every whole-minute offset up to ±24:59 – parsing what was formatted gives the date-time truncated to
 the precision of the layout, and the instant `wall clock − offset`, whatever the location argument
-is.  A two-digit year carries the year only within Go's pivot window 1969..2068.
+is.  A two-digit year carries the year only within Go's pivot window 1969..2068.  Round 4: the class
+now also admits `January`, `Monday` and `MST` tokens (an abbreviation token next to the numeric zone
+needs an abbreviation the parser reads back, `AbbrOK` – see `abbrOK_of_shape`).
 
 Full statement wanted: the same for EVERY layout with those fields.  That is false for Go's
 layouts (e.g. `1` month directly followed by `2` day prints `112` for both 1/12 and 11/2; `05.02`
@@ -220,11 +223,12 @@ makes the parser read the day as a fraction of the second), hence the class. -/
 theorem format_parse_roundtrip (layout : Bytes) (hRT : RT (tokenize layout) = true)
     (hI : holdsInstant (tokenize layout) = true) (t : TimeV) (hv : t.dt.valid) (hns : t.dt.ns = 0)
     (hwd : 0 ≤ t.wd ∧ t.wd ≤ 6) (hoff : OffOK t.off)
-    (hy2 : .std .year ∈ tokenize layout → 1969 ≤ t.dt.y ∧ t.dt.y ≤ 2068) :
+    (hy2 : .std .year ∈ tokenize layout → 1969 ≤ t.dt.y ∧ t.dt.y ≤ 2068)
+    (habbr : .std .tz ∈ tokenize layout → AbbrOK t.abbr t.off) :
     ∃ p, parseLayout layout (formatLayout layout t) = .ok p
       ∧ p.dt = truncTo (precOf (tokenize layout)) t.dt
       ∧ ∀ locOff locAbbr, instantOf p locOff locAbbr = some (wallSeconds (truncTo (precOf (tokenize layout)) t.dt) - t.off) :=
-  roundtrip_core (tokenize layout) hRT hI t ⟨hv, hns, hwd, hoff, hy2⟩
+  roundtrip_core (tokenize layout) hRT hI t ⟨hv, hns, hwd, hoff, hy2, habbr⟩
 
 /-- Every named format that holds date, time and numeric offset is in the round-trip class; only
 `RFC822Z` has a two-digit year. -/
@@ -261,6 +265,10 @@ theorem time_timeformat_roundtrip (e : String × String) (he : e ∈ Gen.C18.tim
         precOf (tokenize (asc e.2)) = (if e.1 = "RFC822Z" then Prec.minute else if e.1 = "RFC3339N" then .nano else .second)
         ∧ ((tokenize (asc e.2)).contains (.std .year) = true → e.1 = "RFC822Z") := by decide
     exact hall e hmem
+  have hnotz : (tokenize (asc e.2)).contains (.std .tz) = false := by
+    have hall : ∀ e ∈ Gen.C18.timeFormats.filter (fun e => holdsInstant (tokenize (asc e.2))),
+        (tokenize (asc e.2)).contains (.std .tz) = false := by decide
+    exact hall e hmem
   have hs : 0 ≤ localSecs unix off ∧ localSecs unix off < 86400 := by unfold localSecs; omega
   have hc := civil_month_day (localDays unix off)
   have hvalid : (timeVOf unix off abbr).dt.valid := by
@@ -268,6 +276,7 @@ theorem time_timeformat_roundtrip (e : String × String) (he : e ∈ Gen.C18.tim
     refine ⟨hy.1, hy.2, hc.1, hc.2.1, hc.2.2.1, hc.2.2.2, ?_, ?_, ?_, ?_, ?_, ?_, by omega, by omega⟩ <;> omega
   obtain ⟨p, hp, hdt, hinst⟩ := format_parse_roundtrip (asc e.2) hRT hI (timeVOf unix off abbr) hvalid rfl
     (weekday_range' _) hoff (fun hm => hy2 (hprec.2 (List.contains_iff_mem.mpr hm)))
+    (fun hm => by rw [List.contains_iff_mem.mpr hm] at hnotz; cases hnotz)
   refine ⟨p, hp, fun lo la => ?_⟩
   rw [hinst lo la, hprec.1]
   have hw := wall_of_instant unix off
@@ -293,6 +302,136 @@ theorem rfc822z_year_counterexample :
     ∧ (match parseLayout (asc "02 Jan 06 15:04 -0700") (asc "01 Jan 70 00:00 +0000") with
         | .ok p => instantOf p 0 []
         | .error _ => none) = some 0 := by
+  decide +kernel
+
+
+/-! ## Round 4: every named format – what comes back, and which of them carry the instant -/
+
+/-- Every entry of the generated `timeFormats` table (all 24, also the ones with month / weekday
+names, a zone abbreviation, a two-digit year or a single field) is in the round-trip class. -/
+theorem named_formats_all_in_class :
+    Gen.C18.timeFormats.all (fun e => RT (tokenize (asc e.2))) = true := by
+  decide
+
+/-- For every layout of the class – whether or not it holds a full instant – parsing what was
+formatted succeeds and gives back exactly the fields the layout carries; the others take the
+parser's defaults (year 0, 1 January, 00:00:00: `projectDT`).  The zone: with a numeric zone token
+the instant is `wall clock − offset` whatever the location; with only an abbreviation it is that
+relative to a location in which the abbreviation has that offset; with neither, the location
+argument decides (`ZoneSrc.default`). -/
+theorem format_parse_fields (layout : Bytes) (hRT : RT (tokenize layout) = true)
+    (t : TimeV) (hv : t.dt.valid) (hns : t.dt.ns = 0) (hwd : 0 ≤ t.wd ∧ t.wd ≤ 6) (hoff : OffOK t.off)
+    (hy2 : .std .year ∈ tokenize layout → 1969 ≤ t.dt.y ∧ t.dt.y ≤ 2068)
+    (habbr : .std .tz ∈ tokenize layout → AbbrOK t.abbr t.off) :
+    ∃ p, parseLayout layout (formatLayout layout t) = .ok p
+      ∧ p.dt = projectDT (carries (tokenize layout)) t.dt
+      ∧ ((carries (tokenize layout)).contains 'z' = true →
+          ∀ locOff locAbbr, instantOf p locOff locAbbr = some (wallSeconds p.dt - t.off))
+      ∧ ((carries (tokenize layout)).contains 'z' = false → (carries (tokenize layout)).contains 'a' = true →
+          instantOf p t.off t.abbr = some (wallSeconds p.dt - t.off))
+      ∧ ((carries (tokenize layout)).contains 'z' = false → (carries (tokenize layout)).contains 'a' = false →
+          p.zone = .default) :=
+  roundtrip_fields (tokenize layout) hRT t ⟨hv, hns, hwd, hoff, hy2, habbr⟩
+
+/-- `{time {timeformat u F Z} F Z}` for EVERY named format `F`: the text parses, and the fields `F`
+carries are those of the wall clock of `u` in the zone (to the precision the format carries: the
+projection).  Hypotheses: whole-minute offset, four-digit year, a two-digit-year format only inside
+the pivot window, an abbreviation of one of the shapes `parseTimeZone` reads (`abbrShape`). -/
+theorem named_format_roundtrip (e : String × String) (he : e ∈ Gen.C18.timeFormats)
+    (unix off : Int) (abbr : Bytes) (hoff : OffOK off)
+    (hy : 0 ≤ (civilOf unix off).y ∧ (civilOf unix off).y ≤ 9999)
+    (hy2 : (e.1 = "RFC822" ∨ e.1 = "RFC822Z") → 1969 ≤ (civilOf unix off).y ∧ (civilOf unix off).y ≤ 2068)
+    (habbr : abbrShape abbr = true) (hutc : abbr = utcB → off = 0) :
+    ∃ p, parseLayout (asc e.2) (formatLayout (asc e.2) (timeVOf unix off abbr)) = .ok p
+      ∧ p.dt = projectDT (carries (tokenize (asc e.2))) (civilOf unix off) := by
+  have hRT : RT (tokenize (asc e.2)) = true := (List.all_eq_true.mp named_formats_all_in_class) e he
+  have hyr : (tokenize (asc e.2)).contains (.std .year) = true → (e.1 = "RFC822" ∨ e.1 = "RFC822Z") := by
+    have hall : ∀ e ∈ Gen.C18.timeFormats,
+        (tokenize (asc e.2)).contains (.std .year) = true → (e.1 = "RFC822" ∨ e.1 = "RFC822Z") := by decide
+    exact hall e he
+  have hs : 0 ≤ localSecs unix off ∧ localSecs unix off < 86400 := by unfold localSecs; omega
+  have hc := civil_month_day (localDays unix off)
+  have hvalid : (timeVOf unix off abbr).dt.valid := by
+    simp only [timeVOf, civilOf, DateTime.valid] at hy ⊢
+    refine ⟨hy.1, hy.2, hc.1, hc.2.1, hc.2.2.1, hc.2.2.2, ?_, ?_, ?_, ?_, ?_, ?_, by omega, by omega⟩ <;> omega
+  obtain ⟨p, hp, hdt, _⟩ := format_parse_fields (asc e.2) hRT (timeVOf unix off abbr) hvalid rfl
+    (weekday_range' _) hoff (fun hm => hy2 (hyr (List.contains_iff_mem.mpr hm)))
+    (fun _ => abbrOK_of_shape abbr off habbr hutc)
+  exact ⟨p, hp, hdt⟩
+
+/-- The decidable classifier: a layout carries the instant when it holds date, time to the second,
+a numeric offset and no two-digit year. -/
+def carriesInstant (ts : List Tok) : Bool :=
+  holdsInstant ts && (carries ts).contains 's' && !(carries ts).contains 'y'
+
+/-- The named formats the classifier accepts (`RFC822Z` is the only one of `named_format_instants`
+it rejects). -/
+theorem named_formats_lossless :
+    (Gen.C18.timeFormats.filter (fun e => carriesInstant (tokenize (asc e.2)))).map (·.1)
+      = ["", "NGINX", "RFC1123Z", "RFC3339", "RFC3339N", "RUBY"] := by
+  decide
+
+/-- The classifier is sound, for ANY layout of the class (not only the named ones): if it accepts,
+`{time {timeformat u L Z} L Z'}` is `u` – whatever the two zone arguments are. -/
+theorem instant_classifier_sound (layout : Bytes) (hRT : RT (tokenize layout) = true)
+    (hC : carriesInstant (tokenize layout) = true) (unix off : Int) (abbr : Bytes) (hoff : OffOK off)
+    (hy : 0 ≤ (civilOf unix off).y ∧ (civilOf unix off).y ≤ 9999)
+    (habbr : .std .tz ∈ tokenize layout → AbbrOK abbr off) :
+    ∃ p, parseLayout layout (formatLayout layout (timeVOf unix off abbr)) = .ok p
+      ∧ ∀ locOff locAbbr, instantOf p locOff locAbbr = some unix := by
+  simp only [carriesInstant, Bool.and_eq_true, Bool.not_eq_true'] at hC
+  obtain ⟨⟨hI, cs⟩, cy⟩ := hC
+  have hs : 0 ≤ localSecs unix off ∧ localSecs unix off < 86400 := by unfold localSecs; omega
+  have hc := civil_month_day (localDays unix off)
+  have hvalid : (timeVOf unix off abbr).dt.valid := by
+    simp only [timeVOf, civilOf, DateTime.valid] at hy ⊢
+    refine ⟨hy.1, hy.2, hc.1, hc.2.1, hc.2.2.1, hc.2.2.2, ?_, ?_, ?_, ?_, ?_, ?_, by omega, by omega⟩ <;> omega
+  have hnoy : ¬ (.std .year ∈ tokenize layout) := by
+    intro hm
+    have : 'y' ∈ carries (tokenize layout) := by
+      simp only [carries, List.mem_filterMap]
+      exact ⟨_, hm, rfl⟩
+    rw [List.contains_iff_mem.mpr this] at cy; cases cy
+  obtain ⟨p, hp, hdt, hinst⟩ := format_parse_roundtrip layout hRT hI (timeVOf unix off abbr) hvalid rfl
+    (weekday_range' _) hoff (fun hm => absurd hm hnoy) habbr
+  refine ⟨p, hp, fun lo la => ?_⟩
+  rw [hinst lo la]
+  have hw := wall_of_instant unix off
+  have hprec : precOf (tokenize layout) = .second ∨ precOf (tokenize layout) = .nano := by
+    simp only [holdsInstant, Bool.and_eq_true] at hI
+    obtain ⟨⟨⟨⟨⟨cY, cM⟩, cD⟩, ch⟩, cm⟩, cz⟩ := hI
+    simp only [precOf, cY, cM, cD, ch, cm, cs, Bool.not_true, Bool.false_eq_true, if_false]
+    split <;> simp
+  rcases hprec with h | h <;> rw [h]
+  · simp only [wallSeconds, truncTo, timeVOf, civilOf, localSecs] at hw ⊢
+    congr 1
+  · show some (wallSeconds (civilOf unix off) - off) = some unix
+    rw [hw]
+
+/-- … and complete on the table: every named format it rejects is lossy – two different instants of
+1970 (in zones with the same abbreviation, e.g. `MSK` was +03 and +04) are printed as the same
+text, so no parser can tell them apart.  With a numeric zone in the format the two instants are one
+second apart in one zone (the seconds are not printed); without, they are one hour apart in zones
+one hour apart (the offset is not printed). -/
+def lossyWitness (ts : List Tok) : (Int × Int) × (Int × Int) :=
+  if (carries ts).contains 'z' then ((0, 0), (1, 0)) else ((3600, 0), (0, 3600))
+
+theorem instant_classifier_complete :
+    ∀ e ∈ Gen.C18.timeFormats, carriesInstant (tokenize (asc e.2)) = false →
+      let w := lossyWitness (tokenize (asc e.2))
+      w.1.1 ≠ w.2.1 ∧
+      formatLayout (asc e.2) (timeVOf w.1.1 w.1.2 (asc "MSK")) = formatLayout (asc e.2) (timeVOf w.2.1 w.2.2 (asc "MSK")) := by
+  decide +kernel
+
+/-- The boundary of the abbreviation class is real: Asia/Kathmandu's abbreviation is `+0545`, which
+`RFC1123` prints and Go's `parseTimeZone` then refuses (a signed offset above 23) – the text does
+not parse back at all.  Same behaviour in the real code (correspondence op `time`); Go's, not rare's. -/
+theorem abbr_numeric_counterexample :
+    formatLayout (asc "Mon, 02 Jan 2006 15:04:05 MST") (timeVOf 0 20700 (asc "+0545")) = asc "Thu, 01 Jan 1970 05:45:00 +0545"
+    ∧ (match parseLayout (asc "Mon, 02 Jan 2006 15:04:05 MST") (asc "Thu, 01 Jan 1970 05:45:00 +0545") with
+        | .ok _ => false
+        | .error _ => true) = true
+    ∧ abbrShape (asc "+0545") = false := by
   decide +kernel
 
 /-! ## Durations -/
@@ -382,6 +521,22 @@ example : formatLayout (asc "_2/Jan/2006:15:04:05 -0700") (timeVOf 1460653945 72
 
 example : OffOK 7200 ∧ OffOK (-12600) ∧ (timeVOf 1460653945 7200 (asc "CEST")).dt.valid := by
   refine ⟨by unfold OffOK; decide, by unfold OffOK; decide, by unfold DateTime.valid; decide +kernel⟩
+
+/-- 4 Apr 2016 19:12:25 +02:00 through ANSIC (`Apr  4`: the padding space is swallowed with the
+literal) and UNIX (abbreviation `CEST`): all carried fields come back; ANSIC leaves the zone to the
+location argument. -/
+example : formatLayout (asc "Mon Jan _2 15:04:05 2006") (timeVOf 1459789945 7200 (asc "CEST")) = asc "Mon Apr  4 19:12:25 2016"
+    ∧ (match parseLayout (asc "Mon Jan _2 15:04:05 2006") (asc "Mon Apr  4 19:12:25 2016") with
+        | .ok p => p == ⟨⟨2016, 4, 4, 19, 12, 25, 0⟩, .default⟩
+        | .error _ => false) = true
+    ∧ (match parseLayout (asc "Mon Jan _2 15:04:05 MST 2006") (formatLayout (asc "Mon Jan _2 15:04:05 MST 2006") (timeVOf 1459789945 7200 (asc "CEST"))) with
+        | .ok p => p == ⟨⟨2016, 4, 4, 19, 12, 25, 0⟩, .name (asc "CEST")⟩
+        | .error _ => false) = true
+    ∧ projectDT (carries (tokenize (asc "Jan"))) ⟨2016, 4, 4, 19, 12, 25, 0⟩ = ⟨0, 4, 1, 0, 0, 0, 0⟩ := by
+  decide +kernel
+
+example : abbrShape (asc "CEST") = true ∧ abbrShape (asc "UTC") = true ∧ abbrShape (asc "MSK") = true
+    ∧ carriesInstant (tokenize (asc "2006-01-02T15:04:05Z07:00")) = true := by decide
 
 example : quarter 3 = 1 ∧ quarter 12 = 4 ∧ Gen.C18.quarter 3 = 1 ∧ Gen.C18.quarter 12 = 4 := by decide
 
